@@ -125,14 +125,18 @@ def computeTargets (c : Cfg α) (prefTotal prevDp prevVoa : α) (a : AmpIn α) :
 
 /-- `power_reduction`: `select_edfa` for an auto-selected model (`min(selected.power, 0.0)` with
 `power = min(pin + gain_flatmax + target_extended_gain, p_max) - power_target`), the explicit saturation check
-of `set_one_amplifier` for a user-imposed model: `min(0, p_max - (pref_total_db + dp))` in both modes (repaired
-behaviour: in gain mode `dp` already accounts for the input VOA; the unrepaired code left `in_voa` out) -/
-def powerReduction (c : Cfg α) (prefTotal : α) (a : AmpIn α) (gain powerTarget dp : α) : α :=
+of `set_one_amplifier` for a user-imposed model.  In gain mode the code estimates the output as
+`pref_total + prev_dp - node_loss - prev_voa + gain_target`, i.e. WITHOUT the input VOA (open finding
+gain-mode-in-voa-saturation). -/
+def powerReduction (c : Cfg α) (prefTotal prevDp prevVoa : α) (a : AmpIn α) (gain powerTarget dp : α) : α :=
   if a.user.variety == "" then
     let pin := powerTarget - gain
     pmin (pmin (pin + a.sel.gainFlatmax + c.extGain) a.sel.pMax - powerTarget) ((0:Nat) : α)
-  else
+  else if c.powerMode then
     pmin ((0:Nat) : α) (a.sel.pMax - (prefTotal + dp))
+  else
+    let pout := prefTotal + prevDp - a.nodeLoss - prevVoa + gain
+    pmin ((0:Nat) : α) (a.sel.pMax - pout)
 
 /-- `set_one_amplifier` (+ `set_amplifier_voa`) -/
 def ampStep (c : Cfg α) (pref prefTotal prevDp prevVoa : α) (a : AmpIn α) : AmpOut α :=
@@ -141,7 +145,7 @@ def ampStep (c : Cfg α) (pref prefTotal prevDp prevVoa : α) (a : AmpIn α) : A
   let powerTarget := t.2.1
   let dp0 := t.2.2.1
   let voa := t.2.2.2
-  let red := powerReduction c prefTotal a gain0 powerTarget dp0
+  let red := powerReduction c prefTotal prevDp prevVoa a gain0 powerTarget dp0
   let dp := dp0 + red
   let gain := gain0 + red
   -- set_amplifier_voa
